@@ -460,6 +460,31 @@ def execute(p: Dict[str, Any]) -> Dict[str, Any]:
         bad("purity:input-mutated", "validate_config changed its argument: %s" % _show(tree, text))
     stats["accepted" if verdict["ok"] else "rejected"] = 1
     if verdict["ok"] and isinstance(norm, dict):
+        # the result belongs to the caller: no list or mapping inside it may be the very object that sits in the caller's input,
+        # in the validator's module-level defaults, or in the result of another call (checked by identity - changing a shared
+        # object to prove the point would poison this process)
+        def _containers(o, acc, depth=0):
+            if depth > 12 or not isinstance(o, (dict, list)):
+                return acc
+            acc[id(o)] = o
+            for v in (o.values() if isinstance(o, dict) else o):
+                _containers(v, acc, depth + 1)
+            return acc
+        try:
+            mine = _containers(norm, {})
+            mine.pop(id(norm), None)
+            shared_in = [k for k in mine if k in _containers(tree, {})]
+            shared_def = [k for k in mine if k in _containers(getattr(V, "DEFAULTS", {}), {})]
+            other = V.validate_config(copy.deepcopy(tree))
+            shared_other = [k for k in mine if k in _containers(other, {})]
+            if shared_in:
+                stats["result_shares_objects_with_input"] = 1   # observed, not demanded: the property forbids mutating the input, not aliasing it
+            if shared_def or shared_other:
+                bad("purity:result-shares-state-with-validator", "the returned configuration holds an object of the validator's own state (%s): a caller changing its configuration changes what the validator returns next; %s" % (
+                    str(mine[(shared_def or shared_other)[0]])[:80], _show(tree, text)))
+        except ConfigError:
+            pass
+    if verdict["ok"] and isinstance(norm, dict):
         # what the validator returns is "a normalised configuration": it is itself acceptable (it obeys the validator's
         # own range rules)
         try:
